@@ -49,10 +49,40 @@ def gen_spec(rng):
           'fused': rng.random() < 0.6, 'num_threads': 0}
 
 
+FIDELITY_TESTS = [
+    'ml_metrics/_src/utils/iter_utils_test.py',
+    'ml_metrics/_src/utils/courier_utils_test.py',
+    'ml_metrics/_src/chainables/courier_server_test.py',
+    'ml_metrics/_src/chainables/courier_worker_test.py',
+    'ml_metrics/_src/chainables/orchestrate_test.py',
+]
+
+
 def plan(tier, seed):
   n = 40 if tier == 'quick' else 500
   chunks = 16 if tier == 'quick' else 32
-  return [{'chunk': i, 'n': n, 'rseed': seed} for i in range(chunks)]
+  specs = [{'chunk': i, 'n': n, 'rseed': seed} for i in range(chunks)]
+  if tier == 'thorough':
+    # Fidelity suite of the transport stand-in: the upstream test files that the
+    # pinned suite cannot collect, run against it (reported, never a verdict).
+    specs += [{'fidelity': t} for t in FIDELITY_TESTS]
+  return specs
+
+
+def run_fidelity(ctx, test_file):
+  import os, re, subprocess, sys
+  from vlib import runner
+  env = dict(os.environ)
+  env['PYTHONPATH'] = os.pathsep.join([os.path.join(runner.ROOT, 'vlib/fakecourier'), runner.REPO])
+  r = subprocess.run(
+      [sys.executable, '-m', 'pytest', '-q', '-p', 'no:cacheprovider', '--timeout=300', test_file],
+      cwd=runner.REPO, env=env, capture_output=True, text=True, timeout=1500)
+  tail = r.stdout.strip().splitlines()[-1] if r.stdout.strip() else ''
+  passed = int((re.search(r'(\d+) passed', tail) or [0, 0])[1])
+  failed = int((re.search(r'(\d+) failed', tail) or [0, 0])[1])
+  ctx.count('fidelity_tests_passed', passed)
+  ctx.count('fidelity_tests_failed', failed)
+  ctx.observe('fidelity_suite', {'file': test_file, 'summary': tail})
 
 
 def _canon_batches(batches):
@@ -227,6 +257,9 @@ def run_case_spec(ctx, case):
 
 
 def run_chunk(ctx, spec):
+  if 'fidelity' in spec:
+    run_fidelity(ctx, spec['fidelity'])
+    return
   import courier
   from vlib import cwork
   cwork.setup(scale=1.0)
